@@ -127,6 +127,10 @@ def run(tier):
                 continue
             if tier == "quick" and vname and i % 4 and "adv-" not in p:
                 continue
+            # thorough: every world under the default options, the other option sets on every second world (40k compiler runs
+            # otherwise: more than an hour)
+            if tier != "quick" and vname and i % 2 and "adv-" not in p:
+                continue
             units.append({"variant": vname, "args": cli_args("rust", vargs), "i": i, "wit": p, "out": os.path.join(wd, "out", f"{vname or 'default'}-{i}")})
     gen = run_matrix(cli, [{"lang": "rust", "wit": u["wit"], "out": u["out"], "args": u["args"]} for u in units], workers=16, wd=wd)
     cmds = []
